@@ -378,7 +378,7 @@ def rule_histories(ctx, ci):
     def pitches(cont):
         if cont is None:
             return None
-        return tuple(sorted(12 * n.attrs["octave"] + nd.pitch_of_concrete(n.attrs["name"]) for n in cont.attrs["notes"]))
+        return tuple(sorted(nd.pitch_number(n.attrs["name"], n.attrs["octave"]) for n in cont.attrs["notes"]))
 
     def snapshot(b):
         return ([(e[0], e[1], id(e[2])) for e in b.attrs["bar"]], b.attrs.get("current_beat", "class default"), b.attrs.get("length", "class default"))
